@@ -830,9 +830,9 @@ func (e *Engine) call(fi *fnInfo, st *State, in *ssa.Call) []*State {
 }
 
 // Scanners that deliberately leave the cursor where the scan failed.
+// Scanners that deliberately leave the cursor where the scan failed and whose callers cannot be shown, from the
+// shape of the code, to turn that into an error (the css and js cases of this kind are decided by failurePropagated).
 var restoreExceptions = map[string]string{
-	"(*css.Lexer).consumeUnquotedURL":   "on failure the caller continues from the failure point with consumeRemnantsBadURL (one BadURL token up to the matching ')')",
-	"(*js.Lexer).consumeRegExpToken":    "its only caller RegExp() turns the failure into the error 'unexpected EOF or newline' immediately",
 	"(*json.Parser).consumeStringToken": "documented: the caller picks up the movement to tell NUL from EOF; the failure is turned into an error",
 }
 
@@ -1575,19 +1575,20 @@ func (e *Engine) summaries(callee *ssa.Function, st *State, args []AbsVal) []sum
 	return out
 }
 
-// isFailureResult: the function's single result is a bool (false = failure) or a token type (0 = ErrorToken).
+// isFailureResult: an unexported scanner method — it has a receiver and a single result that is a bool
+// (false = failure) or a token type (0 = the error token).
 func isFailureResult(fn *ssa.Function) bool {
 	res := fn.Signature.Results()
-	if res.Len() != 1 {
+	if res.Len() != 1 || fn.Signature.Recv() == nil || fn.Object() == nil || fn.Object().Exported() {
 		return false
 	}
 	t := res.At(0).Type()
 	if b, ok := t.Underlying().(*types.Basic); ok {
 		if b.Kind() == types.Bool {
-			return strings.HasPrefix(fn.Name(), "consume")
+			return true
 		}
 		if n, named := t.(*types.Named); named && n.Obj().Name() == "TokenType" {
-			return strings.HasPrefix(fn.Name(), "consume")
+			return true
 		}
 	}
 	return false
